@@ -1,4 +1,5 @@
 import FxVerif.Model.C13
+import FxVerif.Model.C07Gov
 import FxVerif.Model.Util
 /-! line-protocol driver for the C13/C07 model: `lake env lean --run Driver/C13.lean < ops.txt` -/
 open FxVerif FxVerif.Util FxVerif.Model.C13
@@ -52,6 +53,7 @@ def parseOp (ws : List String) : Option Op :=
   | ["editb", o, b] => do pure (.editb (← o.toNat?) (← b.toNat?))
   | ["withdraw", o] => do pure (.withdraw (← o.toNat?))
   | ["fund", o, amt] => do pure (.fund (← o.toNat?) (← amt.toNat?))
+  | ["mint", o, amt] => do pure (.mint (← o.toNat?) (← amt.toNat?))
   | ["unbond", o] => do pure (.unbond (← o.toNat?))
   | ["mkbatch"] => some .mkbatch
   | ["mkcall"] => some .mkcall
@@ -72,7 +74,9 @@ def step (st : St) (line : String) : St × String :=
     | _ => ({}, "ok")
   | ws =>
     match parseOp ws with
-    | none => (st, "bad-op")
+    | none => match FxVerif.Model.C07Gov.gline ws with   -- gov half of C07 (stateless: the tally inputs are on the line)
+      | some r => (st, r)
+      | none => (st, "bad-op")
     | some (.valslash v num den) =>
       let (s', r) := FxVerif.Model.C13.step st.s (.valslash v num den)
       ({ st with s := s' }, showRes r ++ " ~")
@@ -80,7 +84,7 @@ def step (st : St) (line : String) : St × String :=
       let (s', r) := FxVerif.Model.C13.step st.s op
       let st' := { st with s := s' }
       match r with
-      | .panic _ => (st', "panic:SlashOracle:MustAccAddressFromBech32")   -- nothing is committed, the chain halts
+      | .panic site => (st', "panic:" ++ (site.splitOn "(").head!)   -- nothing is committed, the chain halts
       | _ => (st', showRes r ++ " " ++ showState st')
 
 def main : IO Unit := runDriver step ({} : St)
